@@ -202,3 +202,25 @@ Theorem C04_delivered_acceptor_sound_composed_partial : forall pers blk fx caps 
   ComposeAccept.quiescent c -> ComposeDelivered.Tested c h -> Monitor.mon_delivered h = [].
 Proof. exact ComposeDelivered.delivered_acceptor_sound_composed_partial. Qed.
 Print Assumptions C04_delivered_acceptor_sound_composed_partial.
+
+(** ** Round "proofs 6": composed runs without Close / cancel calls *)
+From WM Require GoChannel.ComposeNoClose.
+(** along every composed run without Close and cancel calls no subscription is ever closing and
+    g.closing stays open *)
+Theorem C04_no_close_not_closing : forall pers blk fx caps fa cls x,
+  forallb ComposeNoClose.no_close_label cls = true ->
+  closing (Compose.ci (Compose.crun (Compose.cinit pers blk fx caps fa) cls) x) = false
+  /\ gclosing (Compose.cg (Compose.crun (Compose.cinit pers blk fx caps fa) cls)) = false.
+Proof. exact ComposeNoClose.no_close_not_closing. Qed.
+Print Assumptions C04_no_close_not_closing.
+(** [Monitor.mon_delivered] on quiescent composed runs without Close / cancel - PARTIAL: the "not
+    closing" half of the bookkeeping hypothesis is discharged; what remains is
+    [ComposeNoClose.TestedSenders]: every pair the acceptor tests has a Sender in the registry
+    (ASubRet x before APubCall p on x's topic ==> x in p's snapshot: the event-order half, open). *)
+Theorem C04_delivered_acceptor_sound_composed_no_close_partial : forall pers blk fx caps fa cls,
+  let c0 := Compose.cinit pers blk fx caps fa in let c := Compose.crun c0 cls in
+  let h := ComposeAccept.ctrace c0 cls ++ [Monitor.AQuiescent] in
+  forallb ComposeNoClose.no_close_label cls = true ->
+  ComposeAccept.quiescent c -> ComposeNoClose.TestedSenders c h -> Monitor.mon_delivered h = [].
+Proof. exact ComposeNoClose.delivered_acceptor_sound_composed_no_close_partial. Qed.
+Print Assumptions C04_delivered_acceptor_sound_composed_no_close_partial.
